@@ -26,6 +26,8 @@ type c04Cfg struct {
 	M      int  `json:"m"`    // messages
 	R      int  `json:"r"`    // recipients per message
 	NoNoop bool `json:"nonoop"`
+	Calls  int  `json:"calls,omitempty"`  // number of consecutive Send calls on the one connection (default 1)
+	NilMsg bool `json:"nilmsg,omitempty"` // a nil *Msg sits in the middle of the batch
 }
 
 type c04Case struct {
@@ -176,15 +178,30 @@ func c04Exec(r *vf.Run, cfg c04Cfg, c *vf.Chooser) (keys []string, whats []strin
 	if cfg.Enc8 {
 		enc = mail.NoEncoding
 	}
-	msgs := make([]*mail.Msg, cfg.M)
+	calls := cfg.Calls
+	if calls < 1 {
+		calls = 1
+	}
+	msgs := make([]*mail.Msg, cfg.M*calls)
 	for i := range msgs {
 		msgs[i] = hx.StdMsg(i, cfg.R, enc)
 	}
 	var dialErr, sendErr error
+	var callErrs []error
 	pan, pwhat := vf.Guard(func() {
 		dialErr = cl.DialWithContext(context.Background())
 		if dialErr == nil {
-			sendErr = cl.Send(msgs...)
+			for k := 0; k < calls; k++ {
+				batch := append([]*mail.Msg{}, msgs[k*cfg.M:(k+1)*cfg.M]...)
+				if cfg.NilMsg {
+					batch = append(batch[:1], append([]*mail.Msg{nil}, batch[1:]...)...)
+				}
+				err := cl.Send(batch...)
+				callErrs = append(callErrs, err)
+				if err != nil && sendErr == nil {
+					sendErr = err
+				}
+			}
 			_ = cl.Close()
 		}
 	})
@@ -257,7 +274,11 @@ func c04Exec(r *vf.Run, cfg c04Cfg, c *vf.Chooser) (keys []string, whats []strin
 				var se *mail.SendError
 				if !m.HasSendError() || !errors.As(m.SendError(), &se) || se.Reason != mail.ErrNoUnencoded {
 					if !sess.Closed || sent { // on a dead connection the conn check fails first
-						if sendErr == nil || !strings.Contains(sendErr.Error(), "checking SMTP connection") {
+						ce := sendErr
+						if k := i / cfg.M; k < len(callErrs) {
+							ce = callErrs[k]
+						}
+						if ce == nil || !strings.Contains(ce.Error(), "checking SMTP connection") {
 							add("8bit-not-refused-locally", fmt.Sprintf("8bit message %d without 8BITMIME: SendError=%v", i, m.SendError()))
 						}
 					}
@@ -419,6 +440,10 @@ func init() {
 				}
 			}
 			// deeper bound on a few representative configurations with the full 3×3 batch
+			for _, caps := range []int{0b001111, 0b000000, 0b101101} {
+				jobs = append(jobs, job{c04Cfg{TLS: 0, DSN: 1, Caps: caps, M: 2, R: 2, Calls: 2}, 2}, job{c04Cfg{TLS: 0, DSN: 0, Enc8: true, Caps: caps, M: 2, R: 1, Calls: 2, NilMsg: true}, 2},
+					job{c04Cfg{TLS: 0, DSN: 3, Caps: caps, M: 1, R: 3, Calls: 3, NoNoop: true}, 2})
+			}
 			deep := []c04Cfg{
 				{TLS: 0, DSN: 1, Caps: 0b001111, M: 3, R: 3},
 				{TLS: 0, DSN: 0, Caps: 0b000000, M: 3, R: 3},
